@@ -761,6 +761,10 @@ func (r *Resolver) Gen(rnd *Rand, t schemagen.TypeExpr, depth int) (*Value, erro
 			if rnd.Intn(3) == 0 {
 				return &Value{Kind: "string", S: strEdges[rnd.Intn(len(strEdges))]}, nil
 			}
+			if depth <= 2 && rnd.Intn(40) == 0 { // the TL2 size forms change at 254 and at 254+2^16; TL1's at 254 and 2^24
+				n := []int{65789, 65790, 65791, 65536, 70000}[rnd.Intn(5)]
+				return &Value{Kind: "string", S: []byte(strings.Repeat("L", n))}, nil
+			}
 			s := make([]byte, rnd.Intn(12))
 			for i := range s {
 				s[i] = byte('a' + rnd.Intn(26))
